@@ -204,18 +204,22 @@ Proof.
   - apply mem_In. apply H1. apply mem_In. now apply H4.
 Qed.
 
-(* ---- the agreement theorem ---- *)
-Theorem routers_agree wss req w fin :
+(* ---- the agreement theorem, with the step "both routers run the same route" left as a premise ---- *)
+Theorem routers_agree_gen wss req w fin :
   let tc := {| t_router := Curly; t_services := wss |} in
   let tj := {| t_router := Jsr311; t_services := wss |} in
   detect_web_service O (tokenize (rq_path req)) wss = Some w ->
   detect_dispatcher O (rq_path req) wss = Some (w, fin) ->
   forallb (wf_route w) (s_routes w) = true ->
   jsr_all_agree w = true -> forallb (jsr_names_agree w) (s_routes w) = true ->
-  c18_service_ok w = true -> c18_clean (rq_path req) = true -> c18_chain O w req = true ->
+  c18_service_ok w = true -> c18_clean (rq_path req) = true ->
+  (forall rc rj, select_route O tc req = inl (w, rc) -> select_route O tj req = inl (w, rj) ->
+                 In rc (s_routes w) -> In rj (s_routes w) ->
+                 admits O w rc req = true -> admits O w rj req = true ->
+                 jsr_admits O w rc req = true -> jsr_admits O w rj req = true -> rc = rj) ->
   routed_equiv (route_request O tc req) (route_request O tj req).
 Proof.
-  intros tc tj Hws Hdd Hwf Hag Hna Hok Hclean Hchain.
+  intros tc tj Hws Hdd Hwf Hag Hna Hok Hclean Hsame.
   assert (Hbw : best_wf O tc req = true) by (unfold best_wf; cbn [t_services tc]; now rewrite Hws).
   assert (Hba : jsr_best_agree O tj req = true) by (unfold jsr_best_agree; cbn [t_services tj]; now rewrite Hdd).
   destruct (curly_outcome_exact O tc req eq_refl Hbw) as [Hnpc Hmc].
@@ -255,9 +259,35 @@ Proof.
       unfold route_tpl. rewrite <- (matches_route_iff_admits O _ _ _ Hwfc). exact Hmatch. }
     assert (Hadj' : admits O w rj req = true) by (rewrite <- (admits_agree w (rq_path req) Hok Hclean rj req eq_refl Hinj); exact Hadj).
     assert (Hadc' : jsr_admits O w rc req = true) by (rewrite (admits_agree w (rq_path req) Hok Hclean rc req eq_refl Hinc); exact Hadc).
-    (* the same route: the eligible routes are strictly ordered, and neither answer is dominated *)
-    assert (Heq : rc = rj).
-    { unfold c18_chain in Hchain.
+    assert (Heq : rc = rj) by (apply Hsame; assumption).
+    subst rj. split; [reflexivity|]. split; [reflexivity|].
+    (* the same parameters *)
+    assert (Erc : route_request O tc req = RInvoke w rc psc) by (unfold route_request; now rewrite Esc, Epc).
+    assert (Erj : route_request O tj req = RInvoke w rc psj) by (unfold route_request; now rewrite Esj, Epj).
+    rewrite (curly_invoked_params O tc req w rc psc eq_refl Erc Hwfc).
+    assert (Hnar : jsr_names_agree w rc = true) by (rewrite forallb_forall in Hna; now apply Hna).
+    rewrite (jsr_invoked_params O tj req w rc psj eq_refl Erj (Hagr _ Hinc) Hnar).
+    unfold pset_all. f_equal. symmetry. apply (bindings_agree w (rq_path req) Hok Hclean rc Hinc).
+    unfold admits in Hadc. apply andb_true_iff in Hadc as [Hadc _]. apply andb_true_iff in Hadc as [Hadc _].
+    apply andb_true_iff in Hadc as [Hadc _]. now apply andb_true_iff in Hadc as [_ Hadc].
+Qed.
+
+(* ---- the eligible routes strictly ordered: neither answer is dominated, so they are the same route ---- *)
+Theorem routers_agree wss req w fin :
+  let tc := {| t_router := Curly; t_services := wss |} in
+  let tj := {| t_router := Jsr311; t_services := wss |} in
+  detect_web_service O (tokenize (rq_path req)) wss = Some w ->
+  detect_dispatcher O (rq_path req) wss = Some (w, fin) ->
+  forallb (wf_route w) (s_routes w) = true ->
+  jsr_all_agree w = true -> forallb (jsr_names_agree w) (s_routes w) = true ->
+  c18_service_ok w = true -> c18_clean (rq_path req) = true -> c18_chain O w req = true ->
+  routed_equiv (route_request O tc req) (route_request O tj req).
+Proof.
+  intros tc tj Hws Hdd Hwf Hag Hna Hok Hclean Hchain.
+  apply (routers_agree_gen wss req w fin Hws Hdd Hwf Hag Hna Hok Hclean).
+  intros rc rj Esc Esj Hinc Hinj Hadc Hadj' Hadc' Hadj.
+  assert (Hwfc : wf_route w rc = true) by (rewrite forallb_forall in Hwf; now apply Hwf).
+  unfold c18_chain in Hchain.
       assert (H1 : In rc (filter (fun r => admits O w r req) (s_routes w))) by (apply filter_In; auto).
       assert (H2 : In rj (filter (fun r => admits O w r req) (s_routes w))) by (apply filter_In; auto).
       destruct (pairwise_In _ _ _ _ Hchain H1 H2) as [E|[D|D]]; [exact E| |]; exfalso;
@@ -284,17 +314,7 @@ Proof.
             unfold plain_ne in Hp. destruct (v_tk x); destruct (v_verb x); try discriminate Hp; reflexivity.
         + destruct (route_tpl_split w Hok rc Hinc) as [Sc _]. destruct (route_tpl_split w Hok rj Hinj) as [Sj _].
           rewrite Sc, Sj, dominates_app_same in D.
-          pose proof (jsr_select_route_not_dominated O tj req w rj eq_refl Esj Hag rc Hinc Hadc') as Hn. congruence. }
-    subst rj. split; [reflexivity|]. split; [reflexivity|].
-    (* the same parameters *)
-    assert (Erc : route_request O tc req = RInvoke w rc psc) by (unfold route_request; now rewrite Esc, Epc).
-    assert (Erj : route_request O tj req = RInvoke w rc psj) by (unfold route_request; now rewrite Esj, Epj).
-    rewrite (curly_invoked_params O tc req w rc psc eq_refl Erc Hwfc).
-    assert (Hnar : jsr_names_agree w rc = true) by (rewrite forallb_forall in Hna; now apply Hna).
-    rewrite (jsr_invoked_params O tj req w rc psj eq_refl Erj (Hagr _ Hinc) Hnar).
-    unfold pset_all. f_equal. symmetry. apply (bindings_agree w (rq_path req) Hok Hclean rc Hinc).
-    unfold admits in Hadc. apply andb_true_iff in Hadc as [Hadc _]. apply andb_true_iff in Hadc as [Hadc _].
-    apply andb_true_iff in Hadc as [Hadc _]. now apply andb_true_iff in Hadc as [_ Hadc].
+          pose proof (jsr_select_route_not_dominated O tj req w rj eq_refl Esj Hag rc Hinc Hadc') as Hn. congruence.
 Qed.
 
 (* no service claims the URL under either router: both answer 404 *)
